@@ -64,7 +64,7 @@ def load_findings(cid: str) -> list[dict]:
     if not os.path.exists(p):
         return []
     data = json.load(open(p))
-    return [f for f in data.get("findings", []) if f.get("property") == cid and f.get("status", "open") == "open"]
+    return [f for f in data.get("findings", []) if (f.get("property") == cid or cid in f.get("properties", [])) and f.get("status", "open") == "open"]
 
 
 def match_finding(findings: list[dict], signature: str) -> dict | None:
